@@ -102,6 +102,10 @@ class LThread:
             self.state = "running"
 
 
+class BodyError(Exception):
+    """raised inside a critical section by the plan: the lock must be released all the same"""
+
+
 def make_standins(sched):
     class CoopLock:
         def __init__(self):
@@ -211,15 +215,21 @@ def run_cv_schedule(ctx, rng, nthreads, cycles, exhaustive_choices=None):
     finally:
         pass
     plan = [[rng.choice("rw") for _ in range(cycles)] for _ in range(nthreads)]
+    raises = [[rng.random() < 0.2 for _ in range(cycles)] for _ in range(nthreads)]
 
     def fn(me):
-        for m in plan[me.idx]:
+        for m, boom in zip(plan[me.idx], raises[me.idx]):
             me.mode = m
             me.path = "acq"
             me.park(("start",))
-            with lock.acquire(m):
-                me.path = "rel"
-                me.park(("body",))
+            try:
+                with lock.acquire(m):
+                    me.path = "rel"
+                    me.park(("body",))
+                    if boom:
+                        raise BodyError()
+            except BodyError:
+                pass
     threads = [LThread(sched, i, fn) for i in range(nthreads)]
     case = {"lock": "cv", "plan": ["".join(p) for p in plan], "schedule": []}
     ok = True
@@ -371,17 +381,23 @@ def run_flock_schedule(ctx, rng, nthreads, cycles):
     pathutils.open = coop_open
     lock = pathutils.RwLock("/nonexistent/verif.lock")
     plan = [[rng.choice("rw") for _ in range(cycles)] for _ in range(nthreads)]
+    raises = [[rng.random() < 0.2 for _ in range(cycles)] for _ in range(nthreads)]
 
     def fn(me):
-        for m in plan[me.idx]:
+        for m, boom in zip(plan[me.idx], raises[me.idx]):
             me.mode = m
             me.path = "acq"
             me.park(("start",))
-            with lock.acquire(m):
-                me.path = "rel"
-                me.park(("body",))
+            try:
+                with lock.acquire(m):
+                    me.path = "rel"
+                    me.park(("body",))
+                    if boom:
+                        raise BodyError()
+            except BodyError:
+                pass
     threads = [LThread(sched, i, fn) for i in range(nthreads)]
-    case = {"lock": "flock", "plan": ["".join(p) for p in plan], "schedule": []}
+    case = {"lock": "flock", "plan": ["".join(p) for p in plan], "body_raises": raises, "schedule": []}
     contended = False
     try:
         for t in threads:
@@ -458,15 +474,21 @@ def run_dict_schedule(ctx, rng, nthreads, cycles):
     ld = nolock.LockDict()
     keys = ["k1", "k2"]
     plan = [[rng.choice(keys) for _ in range(cycles)] for _ in range(nthreads)]
+    raises = [[rng.random() < 0.25 for _ in range(cycles)] for _ in range(nthreads)]     # the holder leaves its section by an exception
 
     def fn(me):
-        for k in plan[me.idx]:
+        for k, boom in zip(plan[me.idx], raises[me.idx]):
             me.key = k
             me.park(("start",))
-            with ld.acquire(k):
-                me.park(("body",))
+            try:
+                with ld.acquire(k):
+                    me.park(("body",))
+                    if boom:
+                        raise BodyError()
+            except BodyError:
+                pass
     threads = [LThread(sched, i, fn) for i in range(nthreads)]
-    case = {"lock": "lockdict", "plan": plan, "schedule": []}
+    case = {"lock": "lockdict", "plan": plan, "body_raises": raises, "schedule": []}
     waited = False
     try:
         for t in threads:
